@@ -436,6 +436,8 @@ func (m *Machine) eqValue(t types.Type, x, y value) *Term {
 		return m.tt.Bool(isNilFunc(y) && x == nil)
 	case *ssa.Builtin:
 		return m.tt.False
+	case *nativeFunc:
+		return m.tt.Bool(x == nil && isNilFunc(y))
 	case nil:
 		return m.tt.Bool(y == nil)
 	}
@@ -447,6 +449,8 @@ func isNilFunc(v value) bool {
 	case *Closure:
 		return f == nil
 	case *ssa.Function:
+		return f == nil
+	case *nativeFunc:
 		return f == nil
 	case nil:
 		return true
